@@ -308,7 +308,7 @@ func c20(r *core.Run) {
 		e.doIn(app2, "fresh-"+label, func() {
 			fc, _ := cdi.NewCache(cdi.WithSpecDirs(curDirs...), cdi.WithAutoRefresh(curAuto))
 			_ = observe(fc, probeNames(truthOf()))
-			o = observe(fc, probeNames(truthOf()))
+			o = observe(fc, probeNames(truthOf()), curAuto)
 			de = dirErrs(fc)
 			dirs = fc.GetSpecDirectories()
 			_ = fc.Configure(cdi.WithAutoRefresh(false)) // release its watcher
@@ -329,7 +329,7 @@ func c20(r *core.Run) {
 	var gotDirErrs map[string]string
 	var gotDirs []string
 	e.do("queries-2", func() {
-		got = observe(e.cache, probeNames(truth))
+		got = observe(e.cache, probeNames(truth), curAuto)
 		gotDirErrs = dirErrs(e.cache)
 		gotDirs = e.cache.GetSpecDirectories()
 	})
@@ -447,7 +447,7 @@ func c20(r *core.Run) {
 		e.do("queries-3", func() { _ = observe(e.cache, probeNames(truth2)) })
 		e.w.Quiesce()
 		var got2 *obs
-		e.do("queries-4", func() { got2 = observe(e.cache, probeNames(truth2)) })
+		e.do("queries-4", func() { got2 = observe(e.cache, probeNames(truth2), true) })
 		want2, _, _ := freshObs("b")
 		if d := diffObs(got2, want2); d != "" {
 			parts := strings.SplitN(d, "|", 2)
